@@ -187,6 +187,10 @@ func ParseData(data []byte) (Config, error) {
 					return Config{}, fmt.Errorf("[%s] %s: mapping type not supported: %s", name, evcodeRaw, analog.Type)
 				}
 
+				if analog.ChannelOffset < 0 || analog.ChannelOffset > 15 || analog.ChannelOffsetNegative < 0 || analog.ChannelOffsetNegative > 15 {
+					return Config{}, fmt.Errorf("[%s] %s: channel offset outside of 0-15 range", name, evcodeRaw)
+				}
+
 				switch mappingType {
 				case AnalogCC:
 					var bidirectional bool
@@ -352,6 +356,10 @@ func ParseData(data []byte) (Config, error) {
 			return Config{}, fmt.Errorf("[exit_sequence] %w", err)
 		}
 		exitSequence = append(exitSequence, evcode)
+	}
+
+	if cfg.Defaults.Channel < 1 || cfg.Defaults.Channel > 16 {
+		return Config{}, fmt.Errorf("default channel \"%d\" not in 1-16 range", cfg.Defaults.Channel)
 	}
 
 	if cfg.Defaults.Velocity < 0 || cfg.Defaults.Velocity > 127 {
